@@ -136,8 +136,16 @@ func EnvRefString(t *tape.Tape, label string, vars []string) string {
 		case 6:
 			v2 := vars[t.Draw(len(vars), label+":var2")]
 			switch t.Draw(6, label+":dflt") {
-			case 0, 1:
+			case 0:
 				b.WriteString("${" + v + "-dflt}")
+			case 1:
+				// required (rare: an unset one fails the whole call): fine when the variable is set by the
+				// caller or an earlier entry, an error otherwise
+				if t.Draw(8, label+":req?") == 7 {
+					b.WriteString([]string{"${" + v + "?needed}", "${" + v + ":?needed}"}[t.Draw(2, label+":req")])
+				} else {
+					b.WriteString("${" + v + "-dflt}")
+				}
 			case 2:
 				b.WriteString("${" + v + "-$" + v2 + "}")
 			case 3:
